@@ -102,6 +102,8 @@ pub struct Session {
     pub exited: Option<i32>,
     pub detached_pid: Option<i32>,
     pub tags: std::collections::HashMap<u64, Vec<u64>>,
+    pub wtags: std::collections::HashMap<u64, u64>,
+    pub post: Option<Value>,
     pub reader: Option<std::thread::JoinHandle<()>>,
 }
 
@@ -162,6 +164,8 @@ impl Session {
             exited: None,
             detached_pid: None,
             tags: Default::default(),
+            wtags: Default::default(),
+            post: None,
             reader: Some(reader_thread),
         })
     }
@@ -214,7 +218,19 @@ impl Session {
     }
 
     pub fn exec(&mut self, cmd: &Value) -> Value {
-        let r = self.exec_inner(cmd);
+        let mut r = self.exec_inner(cmd);
+        if let (Some(tag), Some(num)) = (cmd["wtag"].as_u64(), r["num"].as_u64()) {
+            if cmd["op"] == "watch_addr" {
+                self.wtags.insert(tag, num);
+            }
+        }
+        if let Some(then) = cmd["then"].as_str() {
+            if r["ok"].as_bool().unwrap_or(false) {
+                let r2 = self.exec_inner(&json!({"op": then}));
+                self.post = Some(r2);
+            }
+        }
+        let _ = &mut r;
         if let (Some(tag), Some(views)) = (cmd["tag"].as_u64(), r["views"].as_array()) {
             let nums = views.iter().filter_map(|v| v["num"].as_u64()).collect();
             self.tags.insert(tag, nums);
@@ -296,7 +312,19 @@ impl Session {
             "restart" => match self.d().restart_debugee() {
                 Ok(pid) => {
                     self.exited = None;
-                    json!({"ok":true,"kind":"restarted","pid":pid.as_raw()})
+                    // restart_debugee() runs to the next stop but only returns the pid: what the
+                    // stop was is visible through the hooks
+                    let evs = self.events.0.borrow().clone();
+                    let last = evs.iter().rev().find(|e| e["ev"] == "breakpoint" || e["ev"] == "exit" || e["ev"] == "signal");
+                    match last {
+                        Some(e) if e["ev"] == "breakpoint" => json!({"ok":true,"kind":"breakpoint","pc":e["pc"],"tid":pid.as_raw(),"pid":pid.as_raw(),"via":"restart"}),
+                        Some(e) if e["ev"] == "exit" => {
+                            self.exited = e["code"].as_i64().map(|c| c as i32);
+                            json!({"ok":true,"kind":"exit","code":e["code"],"pid":pid.as_raw(),"via":"restart"})
+                        }
+                        Some(e) if e["ev"] == "signal" => json!({"ok":true,"kind":"signal","sig":e["sig"],"tid":pid.as_raw(),"pid":pid.as_raw(),"via":"restart"}),
+                        _ => json!({"ok":true,"kind":"restarted","pid":pid.as_raw()}),
+                    }
                 }
                 Err(e) => self.err_json(e),
             },
@@ -308,10 +336,75 @@ impl Session {
                 }
                 self.unit(r)
             }
+            "post_detach_check" => {
+                // the process must be alive and running with original code and no hardware
+                // breakpoints: look at it with an independent PTRACE_SEIZE, then let it finish
+                let Some(pid) = self.detached_pid else {
+                    return json!({"ok":false,"err":"NotDetached"});
+                };
+                let p = Pid::from_raw(pid);
+                std::thread::sleep(std::time::Duration::from_millis(5));
+                let stat = std::fs::read_to_string(format!("/proc/{pid}/stat")).unwrap_or_default();
+                let state = stat.rsplit(") ").next().and_then(|r| r.chars().next()).map(|c| c.to_string());
+                let mut out = serde_json::Map::new();
+                out.insert("ok".into(), json!(true));
+                out.insert("state_after_detach".into(), json!(state));
+                let mut early_exit: Option<i32> = None;
+                match nix::sys::ptrace::seize(p, nix::sys::ptrace::Options::empty()) {
+                    Ok(()) => {
+                        let _ = nix::sys::ptrace::interrupt(p);
+                        // the process may finish right now: this wait can already return its exit
+                        match nix::sys::wait::waitpid(p, None) {
+                            Ok(nix::sys::wait::WaitStatus::Exited(_, c)) => early_exit = Some(c),
+                            Ok(nix::sys::wait::WaitStatus::Signaled(_, sg, _)) => early_exit = Some(-(sg as i32)),
+                            _ => {}
+                        }
+                        if early_exit.is_some() {
+                            out.insert("seized".into(), json!(false));
+                            out.insert("seize_err".into(), json!("exited while being seized"));
+                        } else {
+                        let base = std::mem::offset_of!(libc::user, u_debugreg);
+                        let dr7 = nix::sys::ptrace::read_user(p, (base + 7 * 8) as nix::sys::ptrace::AddressType).map(|v| v as u64).ok();
+                        out.insert("seized".into(), json!(true));
+                        out.insert("dr7".into(), json!(dr7));
+                        out.insert("text_diff".into(), json!(self.text_diff(pid)));
+                        let _ = nix::sys::ptrace::detach(p, None);
+                        }
+                    }
+                    Err(e) => {
+                        out.insert("seized".into(), json!(false));
+                        out.insert("seize_err".into(), json!(format!("{e}")));
+                    }
+                }
+                // run to completion
+                let t0 = std::time::Instant::now();
+                let mut code = early_exit;
+                while code.is_none() && t0.elapsed() < std::time::Duration::from_secs(5) {
+                    match nix::sys::wait::waitpid(p, Some(nix::sys::wait::WaitPidFlag::WNOHANG)) {
+                        Ok(nix::sys::wait::WaitStatus::Exited(_, c)) => {
+                            code = Some(c);
+                            break;
+                        }
+                        Ok(nix::sys::wait::WaitStatus::Signaled(_, sg, _)) => {
+                            code = Some(-(sg as i32));
+                            break;
+                        }
+                        Ok(_) => std::thread::sleep(std::time::Duration::from_millis(2)),
+                        Err(_) => break,
+                    }
+                }
+                out.insert("exit_code".into(), json!(code));
+                std::thread::sleep(std::time::Duration::from_millis(5));
+                out.insert("stdout".into(), json!(String::from_utf8_lossy(&self.out.lock().unwrap()).to_string()));
+                Value::Object(out)
+            }
             "drop" => {
                 let pid = self.pid();
                 self.dbg = None;
-                json!({"ok":true,"kind":"dropped","pid":pid})
+                std::thread::sleep(std::time::Duration::from_millis(20));
+                let stat = std::fs::read_to_string(format!("/proc/{pid}/stat")).unwrap_or_default();
+                let state = stat.rsplit(") ").next().and_then(|r| r.chars().next()).map(|c| c.to_string());
+                json!({"ok":true,"kind":"dropped","pid":pid,"left_state":state})
             }
             "frame" => match self.d().set_frame_into_focus(u("num") as u32) {
                 Ok(n) => json!({"ok":true,"frame":n}),
@@ -338,6 +431,13 @@ impl Session {
                 Ok(v) => json!({"ok":true,"removed":v.is_some()}),
                 Err(e) => self.err_json(e),
             },
+            "unwatch_num_of_tag" => {
+                let num = self.wtags.get(&u("wtag")).copied().unwrap_or(99999);
+                match self.d().remove_watchpoint_by_number(num as u32) {
+                    Ok(v) => json!({"ok":true,"removed":v.is_some()}),
+                    Err(e) => self.err_json(e),
+                }
+            }
             "unwatch_num" => match self.d().remove_watchpoint_by_number(u("num") as u32) {
                 Ok(v) => json!({"ok":true,"removed":v.is_some()}),
                 Err(e) => self.err_json(e),
@@ -351,6 +451,9 @@ impl Session {
         let mut o = serde_json::Map::new();
         let events: Vec<Value> = std::mem::take(&mut *self.events.0.borrow_mut());
         o.insert("events".into(), json!(events));
+        if let Some(p) = self.post.take() {
+            o.insert("post_detach".into(), p);
+        }
         let Some(dbg) = self.dbg.as_ref() else {
             o.insert("alive".into(), json!(false));
             return Value::Object(o);
@@ -367,6 +470,12 @@ impl Session {
         // breakpoints as the debugger lists them
         let bps: Vec<Value> = dbg.breakpoints_snapshot().iter().map(view_json).collect();
         o.insert("bps".into(), json!(bps));
+        let wps: Vec<Value> = dbg
+            .watchpoint_list()
+            .iter()
+            .map(|w| json!({"num": w.number, "addr": w.address.as_u64(), "size": w.size.to_string(), "cond": w.condition.to_string()}))
+            .collect();
+        o.insert("wps".into(), json!(wps));
         // before `start` the child has not exec'ed the program yet: nothing to observe
         let in_program = dbg.ecx().location().pc.as_u64() != 0;
         if alive && in_program && self.detached_pid.is_none() {
@@ -380,6 +489,17 @@ impl Session {
                            "rdi": r.rdi}),
                 );
             }
+            // debug registers of every thread, read independently
+            let mut drs = vec![];
+            if let Ok(rd) = std::fs::read_dir(format!("/proc/{pid}/task")) {
+                for t in rd.flatten() {
+                    let tid: i32 = t.file_name().to_string_lossy().parse().unwrap_or(0);
+                    let base = std::mem::offset_of!(libc::user, u_debugreg);
+                    let rd = |n: usize| nix::sys::ptrace::read_user(Pid::from_raw(tid), (base + n * 8) as nix::sys::ptrace::AddressType).map(|v| v as u64).ok();
+                    drs.push(json!({"tid": tid, "dr": [rd(0), rd(1), rd(2), rd(3)], "dr6": rd(6), "dr7": rd(7)}));
+                }
+            }
+            o.insert("dregs".into(), json!(drs));
             // text of the executable vs the file
             o.insert("text_diff".into(), json!(self.text_diff(pid)));
             // kernel's view of the threads
